@@ -33,11 +33,12 @@ type ndWorld struct {
 	byAddr map[basics.Address]int
 }
 
-var ndWorldOnce sync.Once
-var ndTheWorld *ndWorld
-
+// ndGetWorld: fresh key objects per schedule.  OneTimeSignatureSecrets.Sign draws a new sub-key from the secrets' own
+// (seeded) generator on every call, so message bytes depend on how many signatures a key has made: a schedule must start
+// from the same generator state to be replayable.
 func ndGetWorld() *ndWorld {
-	ndWorldOnce.Do(func() {
+	var ndTheWorld *ndWorld
+	func() {
 		w := &ndWorld{byAddr: map[basics.Address]int{}}
 		for k := 0; k < ndMaxNodes; k++ {
 			var seed crypto.Seed
@@ -54,7 +55,7 @@ func ndGetWorld() *ndWorld {
 			w.byAddr[w.addrs[k]] = k
 		}
 		ndTheWorld = w
-	})
+	}()
 	return ndTheWorld
 }
 
@@ -179,7 +180,9 @@ func (l *ndLedger) LookupAgreement(r basics.Round, a basics.Address) (basics.Onl
 func (l *ndLedger) Circulation(r basics.Round, v basics.Round) (basics.MicroAlgos, error) {
 	return l.inner.Circulation(r, v)
 }
-func (l *ndLedger) LookupDigest(r basics.Round) (crypto.Digest, error) { return l.inner.LookupDigest(r) }
+func (l *ndLedger) LookupDigest(r basics.Round) (crypto.Digest, error) {
+	return l.inner.LookupDigest(r)
+}
 func (l *ndLedger) ConsensusParams(r basics.Round) (config.ConsensusParams, error) {
 	return l.inner.ConsensusParams(r)
 }
@@ -229,18 +232,19 @@ type ndNode struct {
 	gate    chan struct{}
 
 	// guarded by run.mu (written by the hooks on the Service's mainLoop goroutine)
-	svc      *Service
-	clock    *ndClock
-	started  bool
-	round    basics.Round
-	period   period
-	step     step
-	deadline Deadline
-	fastDl   time.Duration
-	handles  int
-	riCount  int
-	seen     map[basics.Round]map[period]ndCache
-	attests  []*ndEv // vote entries of this node that are not yet known to be persisted or released
+	svc            *Service
+	clock          *ndClock
+	started        bool
+	round          basics.Round
+	period         period
+	step           step
+	deadline       Deadline
+	fastDl         time.Duration
+	handles        int
+	riCount        int
+	seen           map[basics.Round]map[period]ndCache
+	persistedInGen bool    // a checkpoint of a state produced by this incarnation has been seen
+	attests        []*ndEv // vote entries of this node that are not yet known to be persisted or released
 }
 
 type ndCache struct {
@@ -376,6 +380,7 @@ func (r *ndRun) startNode(n *ndNode) error {
 	n.svc = svc
 	n.clock = clock
 	n.started = false
+	n.persistedInGen = false
 	r.mu.Unlock()
 	ndReg.Store(svc, n)
 	m.inc(demuxCoserviceType)
